@@ -66,11 +66,11 @@ def facts_for_repo(repo=REPO, want_harness=False, quiet=False):
     """returns dict crate-name -> fact file path for the current tree (extracting if needed)"""
     os.makedirs(CACHE, exist_ok=True)
     ensure_driver()
-    lock = open(os.path.join(CACHE, 'lock'), 'w')
+    extra = [os.path.join(HARNESS, 'src')] if want_harness else []
+    key = tree_hash(repo, extra) + ('-h' if want_harness else '')
+    lock = open(os.path.join(CACHE, 'lock-' + key), 'w')     # one lock per analysed tree: different trees extract in parallel
     fcntl.flock(lock, fcntl.LOCK_EX)
     try:
-        extra = [os.path.join(HARNESS, 'src')] if want_harness else []
-        key = tree_hash(repo, extra) + ('-h' if want_harness else '')
         out_dir = os.path.join(CACHE, 'facts', key)
         need = ['rivia'] + (['rivia_macro_harness'] if want_harness else [])
         if all(os.path.exists(os.path.join(out_dir, c + '.json')) for c in need):
@@ -80,7 +80,7 @@ def facts_for_repo(repo=REPO, want_harness=False, quiet=False):
         fdir = os.path.join(CACHE, 'facts')
         if os.path.isdir(fdir):
             olds = sorted((os.path.join(fdir, d) for d in os.listdir(fdir)), key=os.path.getmtime)
-            for d in olds[:-6]:
+            for d in olds[:-24]:
                 shutil.rmtree(d, ignore_errors=True)
         tmp_out = out_dir + '.tmp'
         shutil.rmtree(tmp_out, ignore_errors=True)
@@ -119,3 +119,7 @@ def facts_for_repo(repo=REPO, want_harness=False, quiet=False):
     finally:
         fcntl.flock(lock, fcntl.LOCK_UN)
         lock.close()
+        try:
+            os.remove(os.path.join(CACHE, 'lock-' + key))
+        except OSError:
+            pass
